@@ -20,6 +20,7 @@ EXPLANATION = (
     "the matching triple and the plain value from Arg::default_vals, and a condition on an argument that is not in the matches "
     "is false. R6.8 command-line values are never left pending when parse gives up: every error that Parser::parse constructs inside its token loop (unknown argument, no_equals, too many values, did-you-mean, invalid UTF-8, match_arg_error) is preceded on every path from the loop head by resolve_pending — with ignore_errors the env/default phases run after such an error and would otherwise treat the pending argument as absent (all sites do this today; the rule is the confirmed majority pattern). R6.9 Arg::_build assigns the action's implicit default / missing-value default whenever none was given, under no other condition. NOT decided: the combination at run time, globals."
     ' R6.1b (name-independent): in every parser body no EnvVariable record is reachable after a DefaultValue record (loops included; subcommand levels apart). R6.3c: Arg::env stores env::var_os(name) as reported.'
+    " R6.A accessor layer (lib/accessors.py): for the is_*_set / get_* accessors this property's rules name — the bool builder sets and unsets one flag on the right edges and the predicate reads that same flag; builder scope (global/local) as in audit/setting_scope.tsv; no two predicates/builders share a flag; setting/unset_setting/global_setting/is_set forward to the right flag word, the flag word is |=bit / &=!bit / &bit!=0 with bit = 1<<discriminant, _propagate_subcommand hands g_settings to the child's settings and g_settings; plain field getters return their field."
 )
 TRUSTED = ["rustc MIR", "clapfacts", "lib/vset.py", "derived Ord follows declaration order"]
 ASSUMPTIONS = ["Arg::env reads the environment at definition time (outside this property)"]
